@@ -134,12 +134,12 @@ fn walk_xobject(key: &str, x: &XObject, r: &impl Resolve, o: &mut Obs) {
 
 fn apply_function(key: &str, f: &pdf::object::Function, o: &mut Obs) {
     use pdf::object::Function;
+    // the dimension accessors are read calls too (the variants without data cannot be produced by the reader)
     let (nin, nout) = match f {
-        Function::Interpolated(parts) => (1, parts.len()),
-        Function::PostScript { domain, range, .. } => (domain.len() / 2, range.len() / 2),
-        Function::Sampled(_) => (f.input_dim(), f.output_dim()),
-        _ => (1, 1),
+        Function::Stiching | Function::Calculator => (1, 1),
+        _ => (f.input_dim(), f.output_dim()),
     };
+    o.put(|| format!("{}.function.dims", key), || format!("{}x{}", nin, nout));
     if nin > 64 || nout > 64 {
         o.put(|| format!("{}.function", key), || format!("dims {}x{} not applied", nin, nout));
         return;
